@@ -98,3 +98,15 @@ def plan(job):
                 p.unlink()
             except OSError:
                 pass
+
+
+def lex(job):
+    """parse_action_call on raw texts: [name, params] or the exception class"""
+    out = []
+    for t in job["texts"]:
+        try:
+            c = parse_action_call(t)
+            out.append({"name": c.name, "params": list(c.parameters)})
+        except Exception as e:  # noqa
+            out.append({"raised": type(e).__name__})
+    return out
